@@ -230,12 +230,12 @@ Lemma raw_got_event_ok : forall s j, InvW s -> rw_reg s j = true -> okr (StepT s
 Proof.
   intros s j I R. unfold raw_got_event. cbv zeta.
   pose proof (dy_kern _ (iw_dyn _ I) j R) as DK.
-  set (toread := if efd_raw s =? 0 then 1024 else 8).
+  set (toread := if raw_is_pipe s j then 1024 else 8).
   assert (RD : match k_read (kern s) (rw_rfd s j) toread with
                | (_, inl n) => n <> 0
                | (_, inr e) => e = EAGAIN
                end).
-  { subst toread. destruct (efd_raw s =? 0); [eapply read_pipe|eapply read_evfd]; eassumption. }
+  { subst toread. destruct (raw_is_pipe s j); [eapply read_pipe|eapply read_evfd]; eassumption. }
   pose proof (kstable_read (kern s) (rw_rfd s j) toread) as KS.
   destruct (k_read (kern s) (rw_rfd s j) toread) as [k1 [n|e]]; cbn [fst] in KS.
   - destruct (Z.eqb_spec n 0) as [Z0|NZ]; [contradiction|].
